@@ -50,6 +50,8 @@ class ConeCtx:
 
     def V(self, name):
         name = Sym.resolve(name)
+        if isinstance(name, tuple):
+            return Sym.lin_value(name, self.V)   # pinned to a linear combination of other inputs on the locus under exploration
         if isinstance(name, Fraction):
             return Sym(name)          # pinned on the equality locus under exploration
         if self.values is None:
